@@ -275,5 +275,7 @@ class ZMQEventLoop(EventLoop):
                 self._did_something = True
 
         for queue in ready:
-            self._queue_callbacks[queue]()
-            self._did_something = True
+            # an earlier callback of this batch may have removed the watch
+            if (callback := self._queue_callbacks.get(queue)) is not None:
+                callback()
+                self._did_something = True
